@@ -87,6 +87,20 @@ class MapV:
                 out[k] = (ite(g, a[0], b[0]) if a[0] is not b[0] else a[0], ite(g, a[1], b[1]))
         return MapV(out)
 
+    # addressed like an array by the (concrete) key, so that `&mut TTEntry` handed out by get_mut / entry().or_insert()
+    # points into the table and writes through it are seen
+    def index_step(self, idx):
+        if not isinstance(idx, CI) or idx.v not in self.d:
+            raise Unsupported('table entry addressed by %r' % (idx,))
+        return self.d[idx.v][1]
+
+    def set_index_step(self, idx, newv):
+        if not isinstance(idx, CI) or idx.v not in self.d:
+            raise Unsupported('table entry addressed by %r' % (idx,))
+        d = dict(self.d)
+        d[idx.v] = (d[idx.v][0], newv)
+        return MapV(d)
+
 
 class Game:
     def __init__(self, branching, depth, ext_plies=(1,), qplies=1, tag='g', eval_bound=30000):
@@ -311,6 +325,17 @@ def install(ex, game, env):
         return mk_option(old[0], old[1]) if old is not None else NONE
     ex.model(r'^std::collections::HashMap::<board::zkey::ZKey, board::transposition_table::TTEntry, .*>::insert$', tt_insert)
 
+    def tt_get_mut(ctx, mp, kp):
+        m = ctx.deref(mp)
+        k = ctx.deref(kp)[0]
+        if not isinstance(k, CI):
+            raise Unsupported('symbolic transposition-table key')
+        e = m.d.get(k.v) if env.get('cache', True) else None
+        if e is None:
+            return NONE
+        return mk_option(e[0], Ptr(mp.root, mp.path + (('i', CI(k.v, 64)),)))
+    ex.model(r'^std::collections::HashMap::<board::zkey::ZKey, board::transposition_table::TTEntry, .*>::get_mut::<.*>$', tt_get_mut)
+
     def tt_entry(ctx, mp, key):
         k = key[0]
         if not isinstance(k, CI):
@@ -332,7 +357,7 @@ def install(ex, game, env):
         newv = entry if old is None else ite(old[0], old[1], entry)
         d[k] = (True, newv)
         ctx.write(mp, MapV(d))
-        return ctx.ex.alloc(ctx.st, newv)       # writes through the returned &mut are not propagated back (none occur in search.rs)
+        return Ptr(mp.root, mp.path + (('i', CI(k, 64)),))      # points into the table: later writes through it are seen
     ex.model(r'^std::collections::hash_map::Entry::<.*board::transposition_table::TTEntry>::or_insert$', tt_or_insert)
 
     def tt_clear(ctx, mp):
